@@ -3,7 +3,10 @@
 #ifndef SESS_IN_WORLD_H
 #define SESS_IN_WORLD_H
 #include "vf_h.h"
-#include "sess_in.c"
+#ifndef SESS_C
+#define SESS_C "sess_in.c"
+#endif
+#include SESS_C
 enum { st_none, st_continuous, st_session_terminated, st_wait_for_logon, st_not_logged_in, st_logon_sent, st_logon_received, st_logoff_sent,
        st_logoff_received, st_test_request_sent, st_sequence_reset_sent, st_sequence_reset_received, st_resend_request_sent, st_resend_request_received, st_num_states };
 #define IS_ESTABLISHED(s) ((s) != st_none && (s) != st_session_terminated && (s) != st_wait_for_logon && (s) != st_not_logged_in && (s) != st_logon_sent && (s) < st_num_states)
@@ -34,16 +37,7 @@ static void msg_init(const uint8_t *type, uint32_t n)
   vf_header_init(&the_hdr, &the_ctx, &the_msg);
   m_msg = &the_msg;
 }
-/* raw inbound bytes for the abstract-message harnesses: "34=" + ND decimal digits + SOH (the real header scan + fast_atoi run on them);
-   ND = 10 covers the whole unsigned 32-bit range (the harness assumes the digits' value fits 32 bits), total length 14 <= SSO capacity */
-#ifndef ND
-#define ND 10
-#endif
-static uint32_t raw_seq(uint8_t *buf, const uint8_t d[ND])
-{
-  buf[0] = '3'; buf[1] = '4'; buf[2] = '='; for (int i = 0; i < ND; i++) buf[3 + i] = d[i]; buf[3 + ND] = 1; return 4 + ND;
-}
-static uint64_t digits_value(const uint8_t d[ND]) { uint64_t v = 0; for (int i = 0; i < ND; i++) v = v * 10 + (uint64_t)(d[i] - '0'); return v; }
-static void digits_of(uint8_t d[ND], uint32_t v) { for (int q = ND - 1; q >= 0; q--) { d[q] = (uint8_t)('0' + v % 10); v /= 10; } }
+/* raw inbound bytes of the abstract-message harnesses: the header scan finds the field "34=" (after BeginString) and the number is the abstract message's MsgSeqNum m_seq */
+static uint32_t raw_abs(uint8_t *buf, uint32_t seq) { const uint8_t b[9] = { '8', '=', 'F', 1, '3', '4', '=', '0', 1 }; for (int i = 0; i < 9; i++) buf[i] = b[i]; m_seq = seq; return 9; }
 static int str_eq(const uint8_t *a, uint32_t na, const uint8_t *b, uint32_t nb) { if (na != nb) return 0; for (uint32_t i = 0; i < 2; i++) if (i < na && a[i] != b[i]) return 0; return 1; }
 #endif
